@@ -229,7 +229,7 @@ func TestC19Skipper(t *testing.T) {
 }
 
 func TestC19Parser(t *testing.T) {
-	rec := obs.NewRecorder("C19", "parser", "rapid: well-formed streams x PacketsParser kinds {observer (skip=false; half of them also return data of their own for chosen units, which must not show), replacer (skip=true with own data for chosen units), failing on chosen units}; oracle: observer leaves the NextData output identical to the run without parser; every group handed over is non-empty and single-PID, and per PID the concatenation of the groups is exactly that PID's payload-carrying packets in arrival order, each once (end-of-stream drain included); replacer: the output is exactly the returned data in order for replaced units and the default data for the others; failing parser: every unit is still handed over exactly once; non-trivial = >= 2 PIDs and a unit over >= 2 packets; distinct by stream bytes + parser kind")
+	rec := obs.NewRecorder("C19", "parser", "rapid: well-formed streams x PacketsParser kinds {observer (skip=false; half of them also return data of their own for chosen units, which must not show), replacer (skip=true with own data for chosen units; half of them refill one result slice they keep, some answer every unit with one constant slice), failing on chosen units}; oracle: observer leaves the NextData output identical to the run without parser; every group handed over is non-empty and single-PID, and per PID the concatenation of the groups is exactly that PID's payload-carrying packets in arrival order, each once (end-of-stream drain included); replacer: the output is exactly the returned data in order for replaced units and the default data for the others; failing parser: every unit is still handed over exactly once; non-trivial = >= 2 PIDs and a unit over >= 2 packets; distinct by stream bytes + parser kind")
 	defer rec.Flush()
 	rapid.Check(t, func(t *rapid.T) {
 		o := defaultStreamOpts()
@@ -253,6 +253,16 @@ func TestC19Parser(t *testing.T) {
 		}
 		kind := gen.Uniform(t, 3, "parserkind")
 		noisy := gen.Bool(t, "noisyobserver")
+		reuseSlice := gen.Bool(t, "reuseslice")
+		shared := make([]*astits.DemuxerData, 0, 4)
+		constSlice := !reuseSlice && gen.Chance(t, 30, "constslice")
+		var constant []*astits.DemuxerData
+		var constantCanon []string
+		for i := 0; i < 3; i++ {
+			x := &astits.DemuxerData{PID: 0x1c00, FirstPacket: &astits.Packet{Header: astits.PacketHeader{PID: uint16(0x1c00 + i)}}}
+			constant = append(constant, x)
+			constantCanon = append(constantCanon, obs.Canon(x))
+		}
 		junk := map[*astits.DemuxerData]int{}
 		sel := rapid.SliceOfN(rapid.Bool(), 64, 64).Draw(t, "select")
 		seenPerPID := map[uint16][]string{}
@@ -287,13 +297,23 @@ func TestC19Parser(t *testing.T) {
 			case 1:
 				// the PAT is never replaced: the demuxer learns the PMT PIDs from the PAT data that passes through it
 				if sel[g%64] && ps[0].Header.PID != 0 {
+					if constSlice {
+						// a parser that answers every unit it takes with one and the same result slice
+						return constant, true, nil
+					}
 					n := 1 + g%3
 					var ds []*astits.DemuxerData
+					if reuseSlice {
+						// a parser that keeps one result slice and refills it for every unit it answers
+						ds = shared[:0]
+					}
 					for i := 0; i < n; i++ {
 						ds = append(ds, &astits.DemuxerData{PID: ps[0].Header.PID, FirstPacket: &astits.Packet{Header: astits.PacketHeader{ContinuityCounter: uint8(g % 16), PID: uint16(i)}}})
 					}
 					if g%5 == 4 {
 						ds = nil // a parser may swallow a unit
+					} else if reuseSlice {
+						shared = ds
 					}
 					return ds, true, nil
 				}
@@ -362,6 +382,11 @@ func TestC19Parser(t *testing.T) {
 					n := 1 + g%3
 					if g%5 == 4 {
 						n = 0
+					}
+					if constSlice {
+						expectOut = append(expectOut, constantCanon...)
+						bi += c.n
+						continue
 					}
 					for i := 0; i < n; i++ {
 						expectOut = append(expectOut, obs.Canon(&astits.DemuxerData{PID: c.pid, FirstPacket: &astits.Packet{Header: astits.PacketHeader{ContinuityCounter: uint8(g % 16), PID: uint16(i)}}}))
